@@ -228,7 +228,7 @@ class _Env(dict):
 # ---- prototypes -------------------------------------------------------------------------------------
 
 # ABI classes (first digit) and pointee codes; a binding type with pointee 0 matches any pointee
-ABI = dict(void=0, int=1, double=2, ptr=3, complex=4, size_t=5, float=6, enum=1, cdata=7)
+ABI = dict(void=0, int=1, double=2, ptr=3, complex=4, size_t=5, float=6, enum=1, cdata=7, other=9)
 POINTEE = {'?': 0, 'char': 1, 'xrl_error*': 2, 'xrl_error': 3, 'int': 4, 'double': 5, 'Crystal_Struct': 6, 'Crystal_Array': 7,
            'compoundData': 8, 'compoundDataNIST': 9, 'radioNuclideData': 10, 'char*': 11, 'void': 12, 'Crystal_Atom': 13, 'xrlComplex': 14}
 
@@ -1340,18 +1340,11 @@ def cpp_type(q, role, where):
     raise TieError('cplusplus/xraylib++.h', where[1], q, 'C++ %s type of the wrapper %s is not in the C++ -> C type map' % (role, where[0]))
 
 
-def cpp_wrapper_protos(repo, bdir, aux, cprotos):
-    """-> (list of Proto keyed by the wrapped C function, info).  The wrapper table is C18's (tools/extract_cpp.py evaluates xraylib++.h with clang and
-    records, for every function / method / constructor / destructor of namespace xrlpp and for every instantiation of a wrapper template, the C function it
-    forwards to); here the DECLARED parameter and result types of each of them are read from the same AST and mapped to C types.  What a wrapper shows
-    its caller is compared with the visible signature of the C function (the error slot, the `int *` count out-parameter and the `Crystal_Array *`
-    catalogue argument are supplied by the wrapper: dropped on the C side, as for the Pascal unit):
-      * a free function / a template instantiation: its parameters, its result;
-      * a method of `Crystal::Struct` that passes the member `cs`: `Crystal_Struct *` first, then its parameters;
-      * a free function that forwards to such a method (`Crystal::Bragg_angle(Struct &cs, …)` -> `cs.Bragg_angle(…)`): its own parameters and result,
-        against the C function the METHOD wraps;
-      * the copy constructor (`Crystal_MakeCopy`): its parameter, result `Crystal_Struct *`; the destructor (`Crystal_Free`): `Crystal_Struct *`, void.
-    Uninstantiated template patterns (`const T... args`) carry no types of their own and are skipped; every template must have an instantiation row."""
+_CPP_EX = {}
+def _cpp_typed_extractor(repo, bdir, aux):
+    """C18's extractor (tools/extract_cpp.py, imported, not modified) run once on cplusplus/xraylib++.h, with the DECLARED types added from the same AST
+    nodes: `raw_params` / `raw_ret` of every wrapper, and `member_types` = [(class, member, declared type, line)] of every non-static data member."""
+    if (repo, bdir, aux) in _CPP_EX: return _CPP_EX[(repo, bdir, aux)]
     import extract_cpp as XC
     class Typed(XC.Extractor):
         def visit_fn(self, d, prefix, kind):
@@ -1367,11 +1360,36 @@ def cpp_wrapper_protos(repo, bdir, aux, cprotos):
             for w in self.wrappers[n0:]:
                 w['raw_params'] = [(x.get('name', ''), x['type'].get('qualType', '')) for x in params]
                 w['raw_ret'] = qt[:cut].strip()
+        def visit_scope(self, n, prefix):
+            if not hasattr(self, 'member_types'): self.member_types = []
+            for d in n.get('inner', []) or []:
+                if d.get('kind') == 'CXXRecordDecl' and d.get('completeDefinition'):
+                    for x in d.get('inner', []) or []:
+                        if x.get('kind') == 'FieldDecl':
+                            self.member_types.append((prefix + d['name'], x.get('name', ''), x['type'].get('qualType', ''), x['type'].get('desugaredQualType', ''), self.line_of(x)))
+            XC.Extractor.visit_scope(self, n, prefix)
     try:
         ex = Typed(repo, bdir, aux).run()
     except XC.ExtractError as e:
         raise TieError('cplusplus/xraylib++.h', 0, str(e)[:300], 'the C++ header could not be evaluated by clang (tools/extract_cpp.py)')
     if ex.unclassified: raise TieError('cplusplus/xraylib++.h', 0, '; '.join(ex.unclassified)[:300], 'wrapper(s) of the C++ header not classified by tools/extract_cpp.py')
+    _CPP_EX[(repo, bdir, aux)] = ex
+    return ex
+
+
+def cpp_wrapper_protos(repo, bdir, aux, cprotos):
+    """-> (list of Proto keyed by the wrapped C function, info).  The wrapper table is C18's (tools/extract_cpp.py evaluates xraylib++.h with clang and
+    records, for every function / method / constructor / destructor of namespace xrlpp and for every instantiation of a wrapper template, the C function it
+    forwards to); here the DECLARED parameter and result types of each of them are read from the same AST and mapped to C types.  What a wrapper shows
+    its caller is compared with the visible signature of the C function (the error slot, the `int *` count out-parameter and the `Crystal_Array *`
+    catalogue argument are supplied by the wrapper: dropped on the C side, as for the Pascal unit):
+      * a free function / a template instantiation: its parameters, its result;
+      * a method of `Crystal::Struct` that passes the member `cs`: `Crystal_Struct *` first, then its parameters;
+      * a free function that forwards to such a method (`Crystal::Bragg_angle(Struct &cs, …)` -> `cs.Bragg_angle(…)`): its own parameters and result,
+        against the C function the METHOD wraps;
+      * the copy constructor (`Crystal_MakeCopy`): its parameter, result `Crystal_Struct *`; the destructor (`Crystal_Free`): `Crystal_Struct *`, void.
+    Uninstantiated template patterns (`const T... args`) carry no types of their own and are skipped; every template must have an instantiation row."""
+    ex = _cpp_typed_extractor(repo, bdir, aux)
     rel = 'cplusplus/xraylib++.h'
     methods = {(w['scope'], w['base']): w for w in ex.wrappers if w['kind'] == 'method'}
     out = []; skipped = []; templates = set(); instantiated = set()
@@ -1398,6 +1416,76 @@ def cpp_wrapper_protos(repo, bdir, aux, cprotos):
     if never: raise TieError(rel, 0, ' '.join(never)[:300], 'wrapper template(s) without an instantiation row: their C prototype has arguments the template cannot take')
     return out, dict(skipped=skipped, kinds={k: sum(1 for w in ex.wrappers if w['kind'] == k) for k in sorted({w['kind'] for w in ex.wrappers})},
                      templates=len(templates), wrapped_c_functions=len({p.cname for p in out}))
+
+
+# =====================================================================================================
+# C++: declared types of the data members of the value classes of cplusplus/xraylib++.h against the fields of the C structs they mirror
+
+def cpp_member_type(q, desugared, mirrors):
+    """C type (abi, pointee) that the declared type of a data member stands for: `int` / `double` / `float` <-> the same scalar, `std::string` <-> `char *`,
+    `std::vector<T>` <-> `T *` (the C struct carries the count in another field), `std::vector<class that mirrors struct S>` <-> `S *`, a raw pointer <-> itself.
+    `mirrors`: {unqualified class name: C struct}.  A type outside the map stands for NO C type (`('other', '?')`: agrees with nothing) - it is never guessed."""
+    def norm(t):
+        t = re.sub(r'\bconst\b|\bvolatile\b|\bmutable\b|\bstruct\b|\bclass\b', '', t)
+        t = re.sub(r'\bxrlpp::(Crystal::)?', '', t)
+        t = re.sub(r'\bstd::(__cxx11::)?basic_string<char(, std::char_traits<char>, std::allocator<char> ?)?>', 'std::string', t)
+        return re.sub(r'\s+', ' ', t).strip()
+    scalars = {'int': ('int', '?'), 'double': ('double', '?'), 'float': ('float', '?')}
+    for cand in (q, desugared):
+        if not cand: continue
+        t = norm(cand)
+        if t in scalars: return scalars[t]
+        if t in ('std::string', 'char *'): return ('ptr', 'char')
+        m = re.fullmatch(r'std::vector<\s*(.+?)\s*(,\s*std::allocator<.*>\s*)?>', t)
+        if m:
+            e = m.group(1).strip()
+            if e in ('int', 'double'): return ('ptr', e)
+            if e == 'std::string': return ('ptr', 'char*')
+            if e in mirrors and mirrors[e] in POINTEE: return ('ptr', mirrors[e])
+            continue
+        m = re.fullmatch(r'(\w+) ?\*', t)
+        if m and m.group(1) in POINTEE and m.group(1) != '?': return ('ptr', m.group(1))
+    return ('other', '?')
+
+
+def cpp_class_members(repo, bdir, aux, cst):
+    """-> (list of Struct keyed by the mirrored C struct, rows, info).  A class of namespace xrlpp MIRRORS the C struct S when it has a constructor whose only
+    parameter is a pointer / reference to S (C18's class maps: `compoundData(_compoundDataPod *cd)`, `Atom(const Crystal_Atom &)`, `Struct(Crystal_Struct *)`);
+    that constructor's member-initialiser list says which field each data member is a copy of (`nAtomsAll(cd->nAtomsAll)`, `Elements(cd->Elements, cd->Elements +
+    cd->nElements)`, `name(cd->name)`, the atom vector built from `atom` / `n_atom`).  One row per data member: (class, member, declared type mapped by
+    `cpp_member_type`) against (struct, that field); a member without such an initialiser is paired with the field of its own name; a member that has neither
+    (the private `Crystal_Struct *cs`, which holds the C object itself) is listed as skipped.  For a vector member the count field named by the initialiser
+    must be an `int` field of the struct (row `(count field, int)`)."""
+    ex = _cpp_typed_extractor(repo, bdir, aux)
+    rel = 'cplusplus/xraylib++.h'
+    maps = [cm for cm in ex.class_maps if cm.get('src') in cst]
+    mirrors = {}
+    for cm in maps:
+        short = cm['cls'].rsplit('::', 1)[-1]
+        if mirrors.setdefault(short, cm['src']) != cm['src']: raise TieError(rel, cm['line'], cm['cls'], 'two classes of this (unqualified) name mirror different C structs')
+    rows = []; skipped = []; structs = []
+    for cm in maps:
+        cls, sname = cm['cls'], cm['src']
+        cfields = dict(cst[sname].fields)
+        inits = {}
+        for m_, f in cm['inits']: inits.setdefault(m_, tuple(f))
+        mem = [x for x in ex.member_types if x[0] == cls]
+        if not mem: raise TieError(rel, cm['line'], cls, 'class with a constructor from a C struct, but no data member was found')
+        fields = []
+        for _, m_, q, dq, ln in mem:
+            f = inits.get(m_, ('none',)); count = None
+            if f[0] in ('scalar', 'string'): field = f[1]
+            elif f[0] in ('range', 'atoms'): field, count = f[1], f[2]
+            elif f[0] == 'adopt': skipped.append(dict(cls=cls, member=m_, declared=q, line=ln, why='holds the pointer to the C struct itself')); continue
+            elif m_ in cfields: field = m_
+            else: skipped.append(dict(cls=cls, member=m_, declared=q, line=ln, why='not initialised from a field of struct %s and no field of that name' % sname)); continue
+            t = cpp_member_type(q, dq, mirrors)
+            rows.append(dict(cls='xrlpp::' + cls, member=m_, declared=q, type=list(t), struct=sname, field=field, count=count, line=ln, file=rel, ctor_line=cm['line'], init=f[0]))
+            if (field, t) not in fields: fields.append((field, t))
+            if count is not None and (count, ('int', '?')) not in fields: fields.append((count, ('int', '?')))
+        structs.append(Struct('xrlpp::' + cls, sname, fields, rel, cm['line'], 'class ' + cls))
+    return structs, rows, dict(skipped=skipped, classes={('xrlpp::' + cm['cls']): cm['src'] for cm in maps},
+                               other_classes=sorted({x[0] for x in ex.member_types} - {cm['cls'] for cm in maps}))
 
 
 # =====================================================================================================
